@@ -330,5 +330,51 @@ def task_c17(repo, verif):
 TASKS['c17'] = task_c17
 
 
+def task_c06(repo, verif):
+    """C06 ground part: the acknowledgements the validator writes name a version/type that the shipped map
+    index resolves for fic 'FA' (so that feeding the acknowledgement back selects the 997/999 map)"""
+    import io
+    import pyx12.x12n_document
+    import pyx12.params
+    import pyx12.map_index
+    import pyx12.x12file
+    from pyx12.test.x12testdata import datafiles
+    out = {'acks': 0, 'violations': []}
+    mi = pyx12.map_index.map_index()
+    src4 = datafiles['simple_837p']['source']
+    docs = [('997 for a 4010 document', src4)]
+    if '834_lui_id_5010' in datafiles:
+        docs.append(('999 for a 5010 document', datafiles['834_lui_id_5010']['source']))
+    for label, text in docs:
+        f = io.StringIO()
+        pyx12.x12n_document.x12n_document(param=pyx12.params.params(), src_file=io.StringIO(text), fd_997=f, fd_html=None, fd_xmldoc=None, xslt_files=None)
+        ack = f.getvalue()
+        if not ack:
+            out['violations'].append({'what': 'no acknowledgement written', 'doc': label})
+            continue
+        out['acks'] += 1
+        segs = list(pyx12.x12file.X12Reader(io.StringIO(ack)))
+        isa = [s for s in segs if s.get_seg_id() == 'ISA'][0]
+        gs = [s for s in segs if s.get_seg_id() == 'GS'][0]
+        icvn, fic, vriic = isa.get_value('ISA12'), gs.get_value('GS01'), gs.get_value('GS08')
+        fn = mi.get_filename(icvn, vriic, fic)
+        if fn is None:
+            out['violations'].append({'what': 'acknowledgement names a version the map index does not know', 'doc': label, 'icvn': icvn, 'fic': fic, 'vriic': vriic})
+        else:
+            # fed back, it is validated against that map
+            f2 = io.StringIO()
+            try:
+                r = pyx12.x12n_document.x12n_document(param=pyx12.params.params(), src_file=io.StringIO(ack), fd_997=f2, fd_html=None, fd_xmldoc=None, xslt_files=None)
+                if r is not True:
+                    out['violations'].append({'what': 'acknowledgement of a valid document is not accepted when fed back', 'doc': label, 'map': fn})
+            except Exception as e:
+                out['violations'].append({'what': 'feeding the acknowledgement back raises', 'doc': label, 'error': '%s: %s' % (type(e).__name__, e)})
+    out['samples'] = []
+    return out
+
+
+TASKS['c06'] = task_c06
+
+
 if __name__ == '__main__':
     main()
